@@ -1,6 +1,7 @@
 (* Driver of the extracted test-runner model (C10).
-   request: run <cov 0|1> (subs (sub k (b stmt...))...) (tests (test name nscopes skip (steps...))...)
-   reply  : (cases (case name skip verdict (logs m...))...) (counter asserts passes fails skips) <exit> *)
+   request: run <cov 0|1> (subs (sub k (b stmt...))...) (items (single test) | (group g (before (scope (steps))...) (after ...) test...) ...)
+            test = (test name (scope...) skip (steps...))
+   reply  : (cases (case group|_ name scope skip verdict (logs m...))...) (counter asserts passes fails skips) <exit>  |  abort *)
 open Common
 open Testrun_model
 
@@ -61,10 +62,20 @@ let step_of = function
   | x -> failwith ("bad step " ^ sexp_to_string x)
 
 let test_of = function
-  | Ls [At "test"; name; ns; skip; Ls steps] ->
-      { t_name = n_of name; t_scopes = List.init (int_of ns) (fun _ -> ()); t_skip = bool_of skip;
+  | Ls [At "test"; name; Ls scopes; skip; Ls steps] ->
+      { t_name = n_of name; t_scopes = List.map n_of scopes; t_skip = bool_of skip;
         t_body = List.map step_of steps }
   | x -> failwith ("bad test " ^ sexp_to_string x)
+
+let hooks_of (l : sexp list) : n -> tstep list option =
+  let tbl = List.map (function Ls [sc; Ls steps] -> (int_of sc, List.map step_of steps) | _ -> failwith "bad hook") l in
+  fun sc -> List.assoc_opt (int_of_n sc) tbl
+
+let item_of = function
+  | Ls [At "single"; t] -> ISingle (test_of t)
+  | Ls (At "group" :: g :: Ls (At "before" :: bs) :: Ls (At "after" :: afs) :: tests) ->
+      IGroup { g_name = n_of g; g_before = hooks_of bs; g_after = hooks_of afs; g_tests = List.map test_of tests }
+  | x -> failwith ("bad item " ^ sexp_to_string x)
 
 let sub_of = function
   | Ls [At "sub"; k; b] -> (n_of k, block_of b)
@@ -72,16 +83,20 @@ let sub_of = function
 
 let handle (req : string) : string =
   match parse_sexps req with
-  | [At "run"; cov; Ls (At "subs" :: subs); Ls (At "tests" :: tests)] ->
-      let (cases, c) = irun_file (bool_of cov) (List.map sub_of subs) (List.map test_of tests) in
-      let scase (x : (unit, n) tcase) =
-        Ls [At "case"; At (string_of_int (int_of_n x.tc_name)); At (if x.tc_skip then "1" else "0");
+  | [At "run"; cov; Ls (At "subs" :: subs); Ls (At "items" :: items)] ->
+    (match irun_items (bool_of cov) (List.map sub_of subs) (List.map item_of items) with
+     | None -> "abort"
+     | Some (cases, c) ->
+      let scase ((g, x) : n option * (n, n) tcase) =
+        Ls [At "case"; At (match g with None -> "_" | Some k -> string_of_int (int_of_n k));
+            At (string_of_int (int_of_n x.tc_name)); At (string_of_int (int_of_n x.tc_scope));
+            At (if x.tc_skip then "1" else "0");
             At (match x.tc_verdict with Pass -> "pass" | FailAssert -> "assert" | FailRuntime -> "runtime");
             Ls (At "logs" :: List.map (fun m -> At (string_of_int (int_of_n m))) x.tc_logs)] in
       sexp_to_string (Ls (At "cases" :: List.map scase cases)) ^ " "
       ^ sexp_to_string (Ls [At "counter"; At (string_of_int (int_of_nat c.asserts)); At (string_of_int (int_of_nat c.passes));
                             At (string_of_int (int_of_nat c.fails)); At (string_of_int (int_of_nat c.skips))])
-      ^ " " ^ string_of_int (int_of_nat (exit_status c))
+      ^ " " ^ string_of_int (int_of_nat (exit_status c)))
   | _ -> "badreq"
 
 let () = serve handle
